@@ -76,6 +76,9 @@ def loop_bound(fi, loop, cfg, cls_methods=()):
         return None, f"for-loop over `{short(it)}` has no static bound"
     # while
     t = loop.test
+    if (isinstance(t, ast.Compare) and len(t.ops) == 1 and isinstance(t.ops[0], (ast.Lt, ast.LtE)) and isinstance(t.left, ast.Call)
+            and isinstance(t.left.func, ast.Name) and t.left.func.id == "len" and t.left.args and isinstance(t.left.args[0], ast.Name)):
+        return _history_bound(fi, loop, cfg, t)
     if not (isinstance(t, ast.Compare) and len(t.ops) == 1 and isinstance(t.left, ast.Name) and isinstance(t.ops[0], (ast.Lt, ast.LtE))):
         return None, f"while condition `{short(t)}` is not `counter < bound` / `counter <= bound`"
     c = t.left.id
@@ -126,6 +129,36 @@ def loop_bound(fi, loop, cfg, cls_methods=()):
     k = bound
     iters = aff_add(k, -c0) if isinstance(t.ops[0], ast.Lt) else aff_add(k, 1 - c0)
     return iters, f"while {c} {'<' if isinstance(t.ops[0], ast.Lt) else '<='} {short(t.comparators[0])}: {c} starts at {c0}, +≥1 on every path back to the test, bound not written"
+
+
+def _history_bound(fi, loop, cfg, t):
+    """`while len(L) < / <= bound` with L a local list that only grows by one append on every path back to the test"""
+    L = t.left.args[0].id
+    bound = affine(t.comparators[0])
+    if bound is None:
+        return None, f"bound `{short(t.comparators[0])}` is not affine"
+    inits = [n for n in walk_no_nested(fi.node) if isinstance(n, (ast.Assign, ast.AnnAssign)) and _targets_name(n, L) and not _inside(n, loop)]
+    if len(inits) != 1 or not (isinstance(inits[0].value, ast.List) and not inits[0].value.elts):
+        return None, f"history list `{L}` is not initialised exactly once to [] before the loop"
+    appends = []
+    for n in ast.walk(loop):
+        if isinstance(n, ast.Call) and isinstance(n.func, ast.Attribute) and isinstance(n.func.value, ast.Name) and n.func.value.id == L:
+            if n.func.attr == "append":
+                appends.append(n)
+            elif n.func.attr in ("pop", "remove", "clear", "extend", "insert", "sort", "reverse"):
+                if n.func.attr in ("pop", "remove", "clear"):
+                    return None, f"history list `{L}` shrinks inside the loop (`{short(n)}`)"
+        if isinstance(n, (ast.Assign, ast.AugAssign)) and _targets_name(n, L) if not isinstance(n, ast.AugAssign) else (isinstance(n.target, ast.Name) and n.target.id == L):
+            return None, f"history list `{L}` is rebound inside the loop"
+    if not appends:
+        return None, f"history list `{L}` never grows inside the loop"
+    head = cfg.node_of(t)
+    app_nodes = {cfg.node_of(n) for n in appends}
+    seen = cfg.reach(start_edges=[(head, m, l) for m, l in head.succ if l == "T"], avoid=app_nodes)
+    if head in seen:
+        return None, f"a path returns to the loop test without appending to `{L}` (the loop variant does not advance): " + " → ".join(cfg.fmt_path(cfg.witness(seen, head))[-5:])
+    iters = dict(bound) if isinstance(t.ops[0], ast.Lt) else aff_add(bound, 1)
+    return iters, f"while len({L}) {'<' if isinstance(t.ops[0], ast.Lt) else '<='} {short(t.comparators[0])}: `{L}` starts empty and grows by ≥1 on every path back to the test"
 
 
 def _inside(n, anc):
@@ -237,7 +270,7 @@ def run(p, led, tier):
                     foldvar = n.targets[0].id
             dep_ok = bool(inside) and all(_depends_on(heal, n.value, foldvar, loop) for n in inside) if foldvar else False
             # the in-loop definition must be executed on every failing path back to the head
-            head = cfg.node_of(loop.iter)
+            head = cfg.node_of(loop.iter if isinstance(loop, ast.For) else loop.test)
             inside_nodes = {cfg.node_of(n) for n in inside}
             seen = cfg.reach(start_edges=[(head, m, l) for m, l in head.succ if l == "T"], avoid=inside_nodes)
             stale = head in seen
